@@ -8,6 +8,7 @@ import (
 	"fmt"
 	"os"
 	"sync"
+	"sync/atomic"
 	"time"
 
 	"github.com/element-of-surprise/coercion"
@@ -468,6 +469,9 @@ func runEngine(rec *recorder, sc *Scenario) error {
 		if busy == 0 {
 			break
 		}
+		time.Sleep(time.Millisecond)
+	}
+	for i := 0; i < 9000 && atomic.LoadInt64(&s.ovOpen) > 0; i++ {
 		time.Sleep(time.Millisecond)
 	}
 	time.Sleep(2 * time.Millisecond)
